@@ -169,7 +169,11 @@ PROPS_RAW = {
                      J("cow.freeze", "wl_cow", 60000, 1500000, mode="freeze")]},
     "C16": {"jobs": [J("dd.locked", "wl_dd", 150000, 4000000, single=0),
                      J("dd.single", "wl_dd", 60000, 1500000, single=1),
-                     J("dd.hb", "wl_dd", 40000, 1000000, single=0, races=1)]},
+                     J("dd.hb", "wl_dd", 40000, 1000000, single=0, races=1),
+                     # an empty shared_ptr handed over is no object: no callback is due for it and
+                     # the object accounting must not be disturbed by it (seed C16-j)
+                     J("dd.empty", "wl_dd", 40000, 1000000, single=0, empty=1),
+                     J("dd.single.empty", "wl_dd", 20000, 500000, single=1, empty=1)]},
     "C17": {"jobs": [J("soh.std", "wl_soh", 150000, 4000000, mode="std"),
                      # preemption happens at synchronisation points only; an access that escaped the
                      # holder's critical section is found by the happens-before detector instead
